@@ -88,6 +88,10 @@ PROPS = {
             {"pkg": "bscript", "name": "VH_C15_Reject"},
             {"pkg": "bscript", "name": "VH_C15_Versions"},
             {"pkg": "bscript", "name": "VH_C15_Edits", "quick": {"params": {"ADDRS": 2}}, "thorough": {"params": {"ADDRS": 3}}},
+            {"pkg": "bt", "name": "VH_C15_TxOutputs"},
+            {"pkg": "bt", "name": "VH_C15_TxReject"},
+            {"pkg": "bt", "name": "VH_C15_TxRejectScript"},
+            {"pkg": "bt", "name": "VH_C15_TxRejectKey"},
         ],
         "assumptions": [],
     },
